@@ -214,9 +214,9 @@ PROPS = {
         "trusted": ["the mint account base layout / Anchor InterfaceAccount<Mint> unpacking (accounts of length 82 or > 165, never 355); sequences of instructions are covered through the write-site inventory, not executed"],
     },
     "C20": {
-        "lean_modules": ["WP.Props.C20", "WP.Props.SdkStep", "WP.Props.SdkSwap", "WP.Props.SdkLiquidity"],
+        "lean_modules": ["WP.Props.C20", "WP.Props.SdkStep", "WP.Props.SdkSwap", "WP.Props.SdkLiquidity", "WP.Props.SdkTransferFee"],
         "lean_support": ["WP.Props.SdkSearch"],
-        "families": [("sdkmath", 100000, 5000000), ("sdkticks", 0, 0), ("sdkaf", 60000, 3000000), ("hist", 12000, 300000)],
+        "families": [("sdkmath", 100000, 5000000), ("sdkticks", 0, 0), ("sdkaf", 60000, 3000000), ("tfee", 30000, 1500000), ("hist", 12000, 300000)],
         "history": True,
         "rule": "sdkmath: the REAL rust-sdk/core crate (linked as is; only ethnum replaced by the vendored stand-in) against the program functions on boundary-biased inputs: token A / B for liquidity, next price from A / B, "
                 "token estimates for liquidity over tick ranges incl. both ends of the tick range with huge liquidity, price -> tick, slippage-adjusted min / max (safe-side and exactness oracle); sdkticks: EVERY tick: "
